@@ -1069,7 +1069,15 @@ func triggerRevived(w *World, v Violation) string {
 		// finding, one step earlier
 		for _, id := range c.Ref.ReqOrder {
 			q := c.Ref.Reqs[id]
-			if q.Resp == 0 || q.RespT != v.T || !(q.RID == v.RID || q.ResRID == v.RID) || q.SentT < delT {
+			if !(q.RID == v.RID || q.ResRID == v.RID) || q.SentT < delT {
+				continue
+			}
+			// the request the violation is about: a data response at v.T, or a call
+			// that was decided (forwarded) at v.T
+			if v.Class == "data_on_invalidated_grant" && (q.Resp == 0 || q.RespT != v.T) {
+				continue
+			}
+			if v.Class == "call_on_invalidated_grant" && (q.SentT > v.T || (q.Resp > 0 && q.RespT < v.T) || (q.Action != "call" && q.Action != "auth" && q.Action != "new")) {
 				continue
 			}
 			seen := false
